@@ -92,12 +92,15 @@ def _schema_shard(rec):
     # (i) names
     live = {}   # name -> list of rows
     fam_of = {}
+    fam_base = {}
     for fam, base in families().items():
         m, e = sim.read_only(sim.render(base))
         if e:
             rec.label('family_not_readable:' + fam)
             continue
+        fam_base[fam] = base
         for r in meta.param_rows(m):
+            r['_fam'] = fam
             live.setdefault(r['name'], []).append(r)
             fam_of.setdefault(r['name'], (fam, base))
     props = req['properties']
@@ -133,6 +136,15 @@ def _schema_shard(rec):
                      'listParameter': 'array'}.get(r['kind'])
         if want_type and sp.get('type') != want_type:
             rec.violation('schema_type', case_of('declaration', name), {'schema': sp.get('type'), 'live_kind': r['kind']}, name=name)
+        # unit: the one a bare number is read in = the declared current unit, seen on every family whose base text leaves the
+        # parameter alone (reading a value may re-express it, e.g. depth in metres)
+        untouched = [x for x in rows if not any(a == name for a, _ in fam_base[x['_fam']])] if '_fam' in rows[0] else []
+        cus = {x['cu'] for x in untouched}
+        if r['kind'] in ('floatParameter', 'intParameter') and len(cus) == 1:
+            live_u = cus.pop()
+            live_u = None if live_u in ('None', None) else live_u
+            if sp.get('units') != live_u:
+                rec.violation('schema_unit', case_of('declaration', name), {'schema': sp.get('units'), 'read_in': live_u}, name=name)
         if r['kind'] == 'floatParameter':
             for side, live_v in (('minimum', r['min']), ('maximum', r['max'])):
                 sv = _num(sp.get(side))
@@ -216,8 +228,10 @@ def _fields_shard(spec, rec):
     @st.composite
     def cases(draw):
         cat, field, kind = draw(st.sampled_from(fields))
+        # report style: the standard writer prints a '***CATEGORY***' banner; the closed-loop (CLGS) style report prints the same
+        # labels under no category banner at all
         return {'kind': 'field', 'category': cat, 'field': field, 'fkind': kind, 'num': draw(nums), 'unit': draw(units),
-                'pad': draw(st.integers(1, 30))}
+                'pad': draw(st.integers(1, 30)), 'banner': draw(st.sampled_from(['own', 'own', 'none', 'clgs']))}
 
     def fn(c):
         if rec.out_of_time():
@@ -245,13 +259,17 @@ def _eval_field(c, rec, path, GeophiresXResult):
         line = f'{indent}{field}: Some Text Value'
     else:
         line = f'{indent}{field}:{" " * c["pad"]}{c["num"]}' + (f' {c["unit"]}' if c['unit'] else '')
-    text = f'                           ***{cat}***\n\n{line}\n\n'
+    banner = c.get('banner', 'own')
+    head = {'own': f'                           ***{cat}***\n\n', 'none': '\n',
+            'clgs': '                               *****************\n                               ***CASE REPORT***\n'
+                    '                               *****************\n\n                           ***AGS/CLGS STYLE OUTPUT***\n\n'}[banner]
+    text = f'{head}{line}\n\n'
     with open(path, 'w') as f:
         f.write(text)
     with worker.quiet():
         r = GeophiresXResult(path).result
     got = r.get(cat, {}).get(field)
-    rec.case(c, nontrivial=True, key=[cat, field], labels=['field_kind:' + kind], sample=c if hash((cat, field)) % 60 == 0 else None)
+    rec.case(c, nontrivial=True, key=[cat, field, banner], labels=['field_kind:' + kind, 'banner:' + banner], sample=c if hash((cat, field)) % 60 == 0 else None)
     if kind == 'equal':
         if got != 'some text value':
             rec.violation('result_field_not_extractable', c, {'line': line, 'client': got}, category=cat, field=field)
